@@ -5,7 +5,7 @@ from concurrent.futures import ThreadPoolExecutor
 from checks.generic import compile_gen, first_index, COMMON_TRUSTED
 
 PROPS = ["c19_wire_only_public", "c19_no_private_on_wire", "c19_private_stays_local", "c19_private_file_mode", "c19_old_existing_mode_refuted", "c19_agent_replace", "c19_agent_replace_faulty", "c19_best_effort_cleanup_refuted",
-         "c19_offered_accepted_spec", "c19_old_p384_refuted",
+         "c19_offered_accepted_spec", "c19_old_p384_refuted", "c19_wire_only_public_web", "c19_no_private_on_wire_web",
          "c19_only_designated_agent", "c19_designated_agent_upsert", "c19_no_agent_adds_nothing", "c19_unusable_agent_adds_nothing",
          "c19_install_only_designated", "c19_agent_discovery_refuted"]
 
@@ -23,13 +23,15 @@ TRUSTED = [
 # further correspondences printed by the same case file: (definition, idx file, label, count definition)
 EXTRA_CORR = {
     "CasesC19A.v": [("c19ae_mismatches", "CasesC19AE.idx", "which agent (library): success flag and the listing of EVERY agent of the scene (the one SSH_AUTH_SOCK names and the decoys at conventional places) after WithAddedKeyUpsertCertIntoAgent / UpsertCertIntoAgent in every agent environment situation = model world_upsert (%s scenes)", "c19ae_ncases")],
-    "CasesC19.v": [("c19i_mismatches", "CasesC19I.idx", "which agent (client): agents of the scene and files under HOME after insertSSHCertIntoAgentORWriteToFilesystem in every agent environment situation = model install_ssh_env (%s scenes)", "c19i_ncases")],
+    "CasesC19.v": [("c19w_mismatches", "CasesC19W.idx", "client runs with the web-browser login (stored CLI token, verifyToken, browser command, cookie received on the local listener): recorded requests, files, agent labels = model setup_wire_web / install (%s runs)", "c19w_ncases"),
+                   ("c19i_mismatches", "CasesC19I.idx", "which agent (client): agents of the scene and files under HOME after insertSSHCertIntoAgentORWriteToFilesystem in every agent environment situation = model install_ssh_env (%s scenes)", "c19i_ncases")],
 }
 # (definition, class, idx file, oracle text)
 VIOLATING = {
     "CasesC19A.v": [("c19a_violating", "agent-replace", "CasesC19A.idx", "after an installation the observed agent listing breaks 'exactly one certificate under the label, nothing else removed, nothing added on error'"),
                     ("c19ae_violating", "private-key-to-undesignated-agent", "CasesC19AE.idx", "the new identity (private key + certificate) is observed in an agent that SSH_AUTH_SOCK does not name")],
     "CasesC19.v": [("c19_violating", "private-exposed", "CasesC19.idx", "a recorded request carries private key material or a private key file is accessible to group/others"),
+                   ("c19w_violating", "private-exposed", "CasesC19W.idx", "a recorded request of a web-login run carries private key material or a private key file is accessible to group/others"),
                    ("c19i_violating", "private-key-to-undesignated-agent", "CasesC19I.idx", "the new identity is observed in an agent that SSH_AUTH_SOCK does not name"),
                    ("c19i_violating_mode", "key-file-mode", "CasesC19I.idx", "a private key file under HOME is accessible to group/others after the installation")],
     "CasesC19U.v": [("c19u_violating", "private-file-mode", "CasesC19U.idx", "the observed mode of the private key file has group/other bits")],
